@@ -2,6 +2,8 @@ package props
 
 import (
 	"fmt"
+	"go/ast"
+	"sort"
 	"go/token"
 	"go/types"
 	"strings"
@@ -194,4 +196,80 @@ func c17Cleaned(c *core.Ctx, r *core.Report, a *locks.Analysis) {
 			"Fetch hands a batch to the processor without having seen, under processorLock, that Cleanup has not run: a cancel or timeout that lands while Fetch waits for input empties the processor, the late batch is processed on nil state and the query goroutine panics (there is no recover), which takes the server down")
 	}
 	r.Floor("GUARD", "calls of processor.Process in DataProcessor.Fetch", n, 1)
+}
+
+// (9) TERMINAL — the coordinator loop (RunQueryForNewPipeline) reads query states from the multiplexer's unbuffered
+// output; in the arms where it returns it stops reading.  The multiplexer goroutine must stop in those states too
+// (close its output and end), otherwise it blocks forever on its next send, one goroutine and one pinned query per
+// request.  The set of states in whose arm the consumer's switch contains a return is a subset of the states in whose
+// arm the multiplexer's switch closes its output (or ends its own handling with a return / errorAndClose).
+func c17TerminalStates(c *core.Ctx, r *core.Report) {
+	isState := isNamedType("pkg/segment/query", "QueryState")
+	cons := c.Fn("pkg/ast/pipesearch", "RunQueryForNewPipeline")
+	mux := c.Fn("pkg/ast/pipesearch/multiplexer", "QueryStateMultiplexer.handleData")
+	cfd, mfd := funcDeclOf(cons), funcDeclOf(mux)
+	if cfd == nil || mfd == nil {
+		r.Undecided("TABLE", "terminal-states", "-", "no syntax for the consumer or the multiplexer")
+		return
+	}
+	armsWith := func(fd *ast.FuncDecl, info *types.Info, pred func(n ast.Node) bool) (map[string]bool, int) {
+		out := map[string]bool{}
+		total := 0
+		for _, arms := range core.SwitchArms(info, fd.Body, isState) {
+			for name, stmts := range arms {
+				total++
+				hit := false
+				for _, st := range stmts {
+					ast.Inspect(st, func(n ast.Node) bool {
+						if _, isLit := n.(*ast.FuncLit); isLit {
+							return false
+						}
+						if n != nil && pred(n) {
+							hit = true
+						}
+						return true
+					})
+				}
+				if hit {
+					out[name] = true
+				}
+			}
+		}
+		return out, total
+	}
+	consStops, nc := armsWith(cfd, c.Pkg("pkg/ast/pipesearch").TypesInfo, func(n ast.Node) bool {
+		_, ok := n.(*ast.ReturnStmt)
+		return ok
+	})
+	muxCloses, nm := armsWith(mfd, c.Pkg("pkg/ast/pipesearch/multiplexer").TypesInfo, func(n ast.Node) bool {
+		if _, isRet := n.(*ast.ReturnStmt); isRet {
+			return true // the multiplexer leaves its state handler early: it ends its own loop for this state (COMPLETE)
+		}
+		call, ok := n.(*ast.CallExpr)
+		if !ok {
+			return false
+		}
+		switch f := call.Fun.(type) {
+		case *ast.Ident:
+			return f.Name == "close"
+		case *ast.SelectorExpr:
+			return strings.Contains(f.Sel.Name, "Close")
+		}
+		return false
+	})
+	r.Floor("TABLE", "state arms of the consumer's switch", nc, 6)
+	r.Floor("TABLE", "state arms of the multiplexer's switch", nm, 6)
+	var names []string
+	for n := range consStops {
+		names = append(names, n)
+	}
+	sort.Strings(names)
+	for _, n := range names {
+		if n == "default" {
+			continue
+		}
+		r.Check(muxCloses[n], "TABLE", "terminal-state("+n+")-ends-the-multiplexer-too", c.Pos(cons.Pos()),
+			"the consumer can stop reading in this state and the multiplexer closes its output in it",
+			"the coordinator loop can return (stop reading) when it sees "+n+", but the multiplexer does not close its output in that state: it goes on to send the next state into a channel nobody reads and blocks forever, leaking the goroutine and the query state of every request that ends this way")
+	}
 }
